@@ -1660,6 +1660,9 @@ impl Tree {
 			*levels_guard = new_levels;
 		}
 
+		// Table ids and value-log file ids are rewound: nothing cached under them is valid
+		self.core.inner.opts.block_cache.clear();
+
 		// Clear the current memtables since they would be stale after restore
 		// This discards any pending writes, which is correct for restore operations
 		{
